@@ -1020,9 +1020,32 @@ def broken_theorems(ctx):
     return out
 
 
+KNOWN_UNI_SITE = "persim/images_kernels.py:uniform-box-edge-rounds-at-mean"
+
+
+def known_uniform_probe(ctx):
+    """the listed finding: `x - (mu[0] - width/2)` rounds the box edge at ulp(mu) before the subtraction, so for a box much
+    narrower than ulp-scale multiples of its birth coordinate the value is the CDF of a shifted box.  Listed input (all
+    arguments are floats, the exact CDF is computed in rationals of them)."""
+    x, y, mu, width, height = 1073741824.000055, 5.5, (1073741824.0000498, 5.0), 2.646458139134114e-05, 1.0
+    def fails():
+        from persim.images_kernels import uniform
+        v = float(uniform(np.array([x]), np.array([y]), mu=mu, width=width, height=height)[0])
+        W, H = Fraction(width), Fraction(height)
+        w = min(max(Fraction(x) - (Fraction(mu[0]) - W / 2), 0), W)
+        h = min(max(Fraction(y) - (Fraction(mu[1]) - H / 2), 0), H)
+        ex = w * h / (W * H)
+        err = abs(Fraction(v) - ex)
+        return err > Fraction(1, 10 ** 9), ("uniform([%r], [%r], mu=%r, width=%r, height=%r) = %r, the CDF of that box is %r"
+                                            % (x, y, mu, width, height, v, float(ex)))
+    common.known_probe(ctx, "C13", KNOWN_UNI_SITE, fails,
+                       {"kind": "known_probe", "x": x, "y": y, "mu": list(mu), "width": width, "height": height})
+
+
 def run(ctx):
     ctx.extra["core_theorems"] = CORE_THEOREMS
     ctx.extra["clauses"] = CLAUSES
+    known_uniform_probe(ctx)
     bt = broken_theorems(ctx)
     for n in py2lean.broken_obligations(ctx, [py2lean.prop_file("kernels")]):
         if n not in bt:
